@@ -3,7 +3,7 @@
 //! prints one canonical result line per case.  The OCaml driver built from the
 //! extracted Coq model prints the same lines for the same inputs.
 use assert_struct::__macro_support::{
-    set_match, verif, ComparisonOp, ErrorReport, NodeKind, PatternNode,
+    set_match, verif, ComparisonOp, ErrorReport, NodeKind, PatternNode, PlainOutputGuard,
 };
 use std::cell::RefCell;
 use std::io::{BufRead, Write};
@@ -205,6 +205,155 @@ fn do_span(f: &[&str]) -> String {
     }
 }
 
+
+// ---- C17: the plain-output guard, the source cache under contention, the renderer choice ----
+
+fn do_guard(f: &[&str]) -> String {
+    // guard <ops>   N = create a guard, D = drop the newest live guard, F = drop the oldest live guard.
+    // Prints the thread's plain-output flag after every operation.  Runs on a fresh thread so
+    // that the flag starts clear.
+    let ops: Vec<char> = f[1].chars().collect();
+    std::thread::spawn(move || {
+        let mut live: Vec<PlainOutputGuard> = Vec::new();
+        let mut out = String::new();
+        for o in ops {
+            match o {
+                'N' => live.push(PlainOutputGuard::new()),
+                'D' => {
+                    live.pop();
+                }
+                'F' => {
+                    if !live.is_empty() {
+                        live.remove(0);
+                    }
+                }
+                _ => panic!("guard op"),
+            }
+            out.push(if verif::plain_output_flag() { '1' } else { '0' });
+        }
+        out
+    })
+    .join()
+    .unwrap()
+}
+
+fn c17_dir() -> std::path::PathBuf {
+    tmpdir().join("c17")
+}
+
+fn c17_report(dir: &str, file: &str, who: usize) -> ErrorReport {
+    // a report with two entries whose labels and lines depend on the thread
+    let mut r = ErrorReport::new(dir, file);
+    let l1 = 1 + (who as u32 % 3);
+    r.push(node(NodeKind::Wildcard, (l1, 0, l1, 2)), format!("T{who}-first"), None);
+    r.push(
+        node(NodeKind::Comparison { op: ComparisonOp::Greater, value: leak_str(format!("{who}")) }, (l1 + 1, 1, l1 + 1, 3)),
+        format!("T{who}-second"),
+        Some(format!("E{who}")),
+    );
+    r
+}
+
+fn render(r: &ErrorReport) -> String {
+    match std::panic::catch_unwind(std::panic::AssertUnwindSafe(|| format!("{}", r))) {
+        Ok(t) => t,
+        Err(_) => "PANIC".into(),
+    }
+}
+
+fn do_contend(f: &[&str]) -> String {
+    // contend <cold|warm> <rounds> <file names, one per thread (hex)>...
+    // Per round: (cold: clear the cache) barrier, every thread formats its own report, join.
+    // Prints, per round, whether each thread's message equals the message of the same failure
+    // formatted alone from an empty cache, and the cache event log of the round.
+    let cold = f[1] == "cold";
+    let rounds: usize = f[2].parse().unwrap();
+    let files: Vec<String> = f[3..].iter().map(|x| unhex_s(x)).collect();
+    let dir = c17_dir();
+    let dirs = dir.to_str().unwrap().to_string();
+    let _g = PlainOutputGuard::new();
+    // alone: empty cache before each
+    let mut alone = Vec::new();
+    for (i, file) in files.iter().enumerate() {
+        verif::clear_source_cache();
+        alone.push(render(&c17_report(&dirs, file, i)));
+    }
+    if !cold {
+        // warm: every file has been seen once (sequentially)
+        verif::clear_source_cache();
+        for (i, file) in files.iter().enumerate() {
+            let _ = render(&c17_report(&dirs, file, i));
+        }
+    }
+    let mut out = Vec::new();
+    for _ in 0..rounds {
+        if cold {
+            verif::clear_source_cache();
+        }
+        let _ = verif::take_cache_log();
+        let barrier = std::sync::Arc::new(std::sync::Barrier::new(files.len()));
+        let mut hs = Vec::new();
+        for (i, file) in files.iter().enumerate() {
+            let b = barrier.clone();
+            let file = file.clone();
+            let dirs = dirs.clone();
+            hs.push(std::thread::spawn(move || {
+                let _g = PlainOutputGuard::new();
+                let r = c17_report(&dirs, &file, i);
+                b.wait();
+                let m = render(&r);
+                (format!("{:?}", std::thread::current().id()), m)
+            }));
+        }
+        let res: Vec<(String, String)> = hs.into_iter().map(|h| h.join().unwrap()).collect();
+        let log = verif::take_cache_log();
+        let same: String = res.iter().zip(alone.iter()).map(|((_, m), a)| if m == a { '1' } else { '0' }).collect();
+        let evs: Vec<String> = log
+            .iter()
+            .map(|(tid, what, path, content)| {
+                let t = res.iter().position(|(id, _)| id == tid).map(|x| x as i64).unwrap_or(-1);
+                let name = std::path::Path::new(path).file_name().map(|n| n.to_string_lossy().to_string()).unwrap_or_default();
+                format!("{}:{}:{}:{}", t, what, hex(name.as_bytes()), match content { Some(c) => hex(c.as_bytes()), None => "none".into() })
+            })
+            .collect();
+        out.push(format!("same={} log={}", same, evs.join(";")));
+    }
+    // the messages themselves (alone), for the header/entries oracle
+    let msgs: Vec<String> = alone.iter().map(|m| hex(m.as_bytes())).collect();
+    format!("{} | alone={}", out.join(" | "), msgs.join(","))
+}
+
+fn do_colour(f: &[&str]) -> String {
+    // colour <ops|-> <xdir> <xfile>: one report formatted after a history of guard operations
+    // (N = new, D = drop newest, F = drop oldest; `-` = none) with the surviving guards alive; the
+    // process environment (NO_COLOR, what stderr is) is set by the caller.
+    let ops: Vec<char> = f[1].chars().filter(|c| *c != '-').collect();
+    let (dir, file) = (unhex_s(f[2]), unhex_s(f[3]));
+    std::thread::spawn(move || {
+        let r = c17_report(&dir, &file, 0);
+        let mut live: Vec<PlainOutputGuard> = Vec::new();
+        for o in ops {
+            match o {
+                'N' => live.push(PlainOutputGuard::new()),
+                'D' => {
+                    live.pop();
+                }
+                'F' => {
+                    if !live.is_empty() {
+                        live.remove(0);
+                    }
+                }
+                _ => panic!("guard op"),
+            }
+        }
+        let m = render(&r);
+        drop(live);
+        hex(m.as_bytes())
+    })
+    .join()
+    .unwrap()
+}
+
 fn main() {
     if std::env::var("RT_QUIET").is_ok() { std::panic::set_hook(Box::new(|_| {})); }
     let stdin = std::io::stdin();
@@ -224,6 +373,19 @@ fn main() {
                 format!("{r}")
             }
             "span" => do_span(&f),
+            "guard" => do_guard(&f),
+            "contend" => do_contend(&f),
+            "colour" => do_colour(&f),
+            "c17file" => {
+                // c17file <xname> <xcontent|none>: (re)create or remove a file under RT_TMP/c17
+                let p = c17_dir().join(unhex_s(f[1]));
+                std::fs::create_dir_all(c17_dir()).unwrap();
+                let _ = std::fs::remove_file(&p);
+                if f[2] != "none" {
+                    std::fs::write(&p, unhex(f[2])).unwrap();
+                }
+                "ok".into()
+            }
             "fsclear" => {
                 // remove everything the previous layout created under RT_TMP/fs
                 let _ = std::fs::remove_dir_all(tmpdir().join("fs"));
